@@ -685,3 +685,37 @@ def deep_resolve(f, d, depth=0):
             return deep_resolve(f, unwrap_conv(init), depth + 1)
         return d
     return {k: (deep_resolve(f, v, depth) if isinstance(v, (dict, list)) else v) for k, v in d.items()}
+
+
+SIZE_OF_OPEN_STREAM = ('ftell', 'ftello', 'fstat', '_filelengthi64', 'lseek')
+
+
+def header_iff_empty(ctx, rid, f, is_header_write, stream_field):
+    """A log file gets its header exactly when the *opened* file is empty: the header write is
+    guarded by a position / size query on the open stream (not by a path-based query made before
+    the open, which misses a file that exists but is empty, e.g. torn at byte 0), and when that
+    query says "empty" the header write is not skipped."""
+    from model import fact_holds
+    ws = [e for e in f.events('call') if is_header_write(e)]
+    if not ws:
+        ctx.violation(rid, f.name, 'header:write-absent', f.loc, 'no header write in %s' % f.name)
+        return
+    def size_query(a):
+        return any(mentions_call(a, c) for c in SIZE_OF_OPEN_STREAM) and mentions_field(a, stream_field)
+    e = sorted(ws, key=lambda x: (x.get('line', 0), x.get('col', 0)))[0]
+    facts = f.facts_at(e)
+    g = [(k, pol) for k, (pol, atom) in facts.items() if size_query(atom)] if isinstance(facts, dict) else \
+        [(k, pol) for (k, pol, atom) in facts if size_query(atom)]
+    ctx.check(rid, bool(g), f.name, 'header:not-guarded-by-open-stream-size', f.where(e),
+              'the header is written only when a size/position query on the open stream %s says the file is empty: %s' % (stream_field, g))
+    # the other direction: from the "empty" edge every path to a success return passes the header write
+    for bid, b in f.blocks.items():
+        for i, s2 in enumerate(b['succ']):
+            if s2 is None:
+                continue
+            for k, pol, atom in f.edge_facts(bid, i):
+                if size_query(atom) and (k, pol) in g:
+                    r = f.find_path(None, lambda x: x['k'] == 'ret' and ret_value_class(f.prog, f, x) == 'success', from_succ=s2,
+                                    is_blocker=is_header_write)
+                    ctx.check(rid, r is None, f.name, 'header:skipped-on-empty-file', f.where(e),
+                              'an empty file always receives the header before OpenForWriteIfNeeded succeeds')
